@@ -589,13 +589,14 @@ class History:
         self.persistent = None
         self.handles = {}
         self.writer = 'fresh'
+        self.staging = None  # the registry's staging= option (another file system) for this history
 
     def key(self, key, op):
         """Mechanism key; failures of operations that refer to a release by an alias spelling are a mechanism of their own."""
         return ('release-alias-spelling-' + key) if is_alias(op, self.before_model) else key
 
     def witness(self, upto, **extra):
-        return dict({'history': self.ops[:upto + 1], 'registry': 'posix', 'writer': self.writer}, **extra)
+        return dict({'history': self.ops[:upto + 1], 'registry': 'posix', 'writer': self.writer, 'staging': bool(self.staging)}, **extra)
 
     def fresh_copy(self, label):
         self.serial += 1
@@ -608,10 +609,10 @@ class History:
 
         if writer == 'persistent' and root == self.root:
             if self.persistent is None:
-                self.persistent = projgen.directory(root)
+                self.persistent = projgen.directory(root, self.staging)
             return self.persistent
         c05_view.forget()  # every operation behaves as if run by a new process
-        return projgen.directory(root)
+        return projgen.directory(root, self.staging)
 
     # -------------------------------------------------------------- one step
     def run(self, writer='fresh'):
@@ -772,7 +773,7 @@ class History:
         def make(root):
             def operation():
                 c05_view.forget()  # the dying process is a new process
-                return perform(projgen.directory(root), op, source)
+                return perform(projgen.directory(root, self.staging), op, source)
 
             return operation
 
@@ -1043,6 +1044,17 @@ def crash_histories(tier):
     return 2 if tier == 'quick' else 12
 
 
+def other_filesystem(scratch, label):
+    """A fresh directory on a file system other than the scratch one (None if this machine has none)."""
+    for base in ('/dev/shm', '/run/shm', '/var/tmp'):
+        try:
+            if os.path.isdir(base) and os.access(base, os.W_OK) and os.stat(base).st_dev != os.stat(scratch).st_dev:
+                return tempfile.mkdtemp(prefix=f'c05-stage-{label}-', dir=base)
+        except OSError:
+            continue
+    return None
+
+
 def run(ctx):
     scratch = tempfile.mkdtemp(prefix='c05-')
     jobs = [('directed', i, ops, True) for i, ops in enumerate(DIRECTED)]
@@ -1071,8 +1083,13 @@ def run(ctx):
         label = f'{family}{index}'
         process = not ctx.quick and (family == 'directed' or index < PROCESS_READER_HISTORIES)
         history = History(ctx, ops, label, scratch, process=process, crash=bool(mine), check=owner, crash_ops=mine)
+        if position % 3 == 2:  # registry configured with its staging area on another file system
+            history.staging = other_filesystem(scratch, label)
+            ctx.count('histories_staging_on_other_filesystem' if history.staging else 'staging_other_filesystem_unavailable')
         history.run(writer='persistent' if index % 2 else 'fresh')
         shutil.rmtree(history.scratch, ignore_errors=True)
+        if history.staging:
+            shutil.rmtree(history.staging, ignore_errors=True)
         if owner:
             # the same history once more through kept generation objects (no crash points: the history part only)
             for parity in (0, 1):
@@ -1092,11 +1109,18 @@ def run(ctx):
 def replay(ctx, witness):
     scratch = tempfile.mkdtemp(prefix='c05-replay-')
     ops = witness['history']
+    history = None
     if witness.get('registry') == 'volatile':
         run_volatile(ctx, ops, 'replay', scratch)
     elif 'crash_point' in witness and witness['crash_point'] != 'dry':
-        History(ctx, ops, 'replay', scratch, crash=True,
-                only_crash={'op_index': witness['op_index'], 'crash_point': witness['crash_point']}).run()
+        history = History(ctx, ops, 'replay', scratch, crash=True,
+                          only_crash={'op_index': witness['op_index'], 'crash_point': witness['crash_point']})
+        history.staging = other_filesystem(scratch, 'replay') if witness.get('staging') else None
+        history.run()
     else:
-        History(ctx, ops, 'replay', scratch, crash=False).run(writer=witness.get('writer', 'fresh'))
+        history = History(ctx, ops, 'replay', scratch, crash=False)
+        history.staging = other_filesystem(scratch, 'replay') if witness.get('staging') else None
+        history.run(writer=witness.get('writer', 'fresh'))
+    if history is not None and history.staging:
+        shutil.rmtree(history.staging, ignore_errors=True)
     shutil.rmtree(scratch, ignore_errors=True)
